@@ -19,6 +19,6 @@ META = dict(
          "tip-height minus fork-height headers. For every state reached by submissions from genesis (invariant StreamWF, preserved by ProcessHeader): a reorganisation announces "
          "exactly the headers of the new best chain above the last header common to both chains (the true fork point; no announced header was on the old chain), lowest first, as a linked chain, every announced header being on the new best chain "
          "(C07_reorg_shape, C07_reorg_announced_in_chain); applying any submission's announcement to the best chain before it gives the best chain after it (C07_stream_step); the branch update never fails (C07_branch_update_never_fails); "
-         "over any finite history the subscriber's chain equals the repository's best chain (C07_stream_reconstructs). Every subscriber's stream is compared between the real code and the model after every op.",
+         "over any finite history the subscriber's chain equals the repository's best chain (C07_stream_reconstructs). Every subscriber's stream is compared between the real code and the model after every op. In the linear world (every fork-free history of any length, across the automatic clean and any Cleans/Saves) the announcements appended to the initial chain are exactly the final best chain (C07_linear_stream).",
     note=COMMON_NOTE + "Partial for histories with maintenance operations (see evidence). Subscriber channels hold 10000 headers (extracted); longer single updates would block and are out of scope.",
 )
